@@ -796,6 +796,23 @@ class Arr:
                 self.a[c] = self.a[c] + sa[cell]
         return self
 
+    def index_put_(self, indices, values, accumulate=False):
+        key = self._prep_key(tuple(indices))
+        v = values.a if isinstance(values, Arr) else _obj(values)
+        if not accumulate:
+            self[tuple(indices)] = values
+            return self
+        _sym_setitem(self.a, key, v, accumulate=True)
+        return self
+
+    def index_put(self, indices, values, accumulate=False):
+        return self.clone().index_put_(indices, values, accumulate)
+
+    def index_add_(self, dim, index, source):
+        key = [slice(None)] * self.a.ndim
+        key[dim] = index
+        return self.index_put_(tuple(key), source, accumulate=True)
+
     def fill_(self, v):
         self.a[...] = v
         return self
@@ -1004,14 +1021,14 @@ def _sym_getitem(a, key):
     return out
 
 
-def _sym_setitem(a, key, v):
+def _sym_setitem(a, key, v, accumulate=False):
     ids, hshape, sym = _layout(a.shape, key)
     _sym_range_check(a.shape, sym)
     vv = np.broadcast_to(v if isinstance(v, np.ndarray) else _obj(v), ids.shape)
     for c in np.ndindex(*ids.shape):
         hcell = np.unravel_index(int(ids[c]), hshape) if hshape else ()
         for cond, cell in _cell_candidates(a.shape, hcell, sym):
-            a[cell] = ite(cond, vv[c], a[cell])
+            a[cell] = ite(cond, (a[cell] + vv[c]) if accumulate else vv[c], a[cell])
 
 
 def _argsort(a, ax, descending=False):
